@@ -96,32 +96,56 @@ pub fn matrices(rec: &mut Recorder, rng: &mut Rng, thorough: bool) {
         }
         // every row gets at least one sparse one with some probability (solver-like shape)
         queries(&sh, rng, &mut ops, 12);
+        // the pair (indexed phase, un-indexed phase) may repeat: the interface allows the column index to be
+        // rebuilt after an un-indexed phase (also after a resize that kept the dense tail)
+        let cycles = if rng.chance(1, 3) { rng.range(2, 3) as usize } else { 1 };
+        let no_row_swaps = rng.chance(1, 3);
+        for cycle in 0..cycles {
         // ---- indexed phase
-        if sh.first_dense() > 0 && sh.any_sparse_one() && rng.chance(4, 5) {
+        // (the column index is keyed by physical column but sized by the current height - `ImmutableListMapBuilder::new(self.height)`:
+        //  rebuilding it needs height >= the original width, the shape the interface is specified for)
+        if sh.first_dense() > 0 && sh.any_sparse_one() && sh.h >= w && (cycle > 0 || rng.chance(4, 5)) {
             ops.push("en".into());
             sh.indexed = true;
+            // (the crate's debug_indexed_column_valid bookkeeping is never reset by a rebuild: a column eliminated
+            //  in an earlier indexed phase stays excluded from get_ones_in_column - kept as the interface's rule)
+            if cycle > 0 {
+                rec.count("reindexed_after_unindexed_phase");
+                // a later indexed phase: push the dense tail across the next word boundary when it is close
+                let to_go = 64 - sh.dense % 64;
+                if sh.dense > 0 && to_go <= 8 && sh.first_dense() > to_go {
+                    for _ in 0..to_go {
+                        let fd = sh.first_dense();
+                        sh.dense += 1;
+                        ops.push(format!("fr:{}", fd - 1));
+                    }
+                    let nfd = sh.first_dense();
+                    for r in 0..sh.h { if sh.defined(r, nfd) { ops.push(format!("sro:{r}:{nfd}")); } for c in 0..sh.w { if sh.defined(r, c) && (c + 3 >= nfd || c < 2) { ops.push(format!("g:{r}:{c}")); } } }
+                    rec.count("reindexed_freeze_crosses_word_boundary");
+                }
+            }
             let steps = rng.range(1, 30) as usize;
             for _ in 0..steps {
                 let fd = sh.first_dense();
                 match rng.below(7) {
-                    0 => { let (i, j) = (rng.below(h as u64) as usize, rng.below(h as u64) as usize); sh.bits.swap(i, j); sh.tainted.swap(i, j); ops.push(format!("sr:{i}:{j}")); }
+                    0 => if !no_row_swaps { let (i, j) = (rng.below(sh.h as u64) as usize, rng.below(sh.h as u64) as usize); sh.bits.swap(i, j); sh.tainted.swap(i, j); ops.push(format!("sr:{i}:{j}")); }
                     1 => if fd >= 2 {
                         let (i, j) = (rng.below(fd as u64) as usize, rng.below(fd as u64) as usize);
                         // start_row_hint: rows above it must have equal values in the two columns
                         let mut hintrow = 0;
-                        if rng.chance(1, 2) { while hintrow < h && sh.bits[hintrow][i] == sh.bits[hintrow][j] { hintrow += 1; } hintrow = rng.below(hintrow as u64 + 1) as usize; }
-                        for r in 0..h { sh.bits[r].swap(i, j); }
+                        if rng.chance(1, 2) { while hintrow < sh.h && sh.bits[hintrow][i] == sh.bits[hintrow][j] { hintrow += 1; } hintrow = rng.below(hintrow as u64 + 1) as usize; }
+                        for r in 0..sh.h { sh.bits[r].swap(i, j); }
                         sh.col_valid.swap(i, j);
                         ops.push(format!("sc:{i}:{j}:{hintrow}"));
                     }
                     2 | 3 => {
                         // single-column elimination: src has exactly one sparse one, dest has a one there
-                        let cands: Vec<usize> = (0..h).filter(|r| sh.sparse_ones(*r).len() == 1).collect();
+                        let cands: Vec<usize> = (0..sh.h).filter(|r| sh.row_clean(*r) && sh.sparse_ones(*r).len() == 1).collect();
                         if let Some(&src) = cands.get(rng.below(cands.len().max(1) as u64) as usize) {
                             let c = sh.sparse_ones(src)[0];
-                            let dests: Vec<usize> = (0..h).filter(|r| *r != src && sh.bits[*r][c]).collect();
+                            let dests: Vec<usize> = (0..sh.h).filter(|r| *r != src && sh.row_clean(*r) && sh.bits[*r][c]).collect();
                             if let Some(&dest) = dests.get(rng.below(dests.len().max(1) as u64) as usize) {
-                                for x in 0..w { let v = sh.bits[src][x]; sh.bits[dest][x] ^= v; }
+                                for x in 0..sh.w { let v = sh.bits[src][x]; sh.bits[dest][x] ^= v; }
                                 sh.col_valid[c] = false;
                                 ops.push(format!("aa:{dest}:{src}:0"));
                             }
@@ -140,7 +164,7 @@ pub fn matrices(rec: &mut Recorder, rng: &mut Rng, thorough: bool) {
                             if b + 1 < burst.min(fd) { queries(&sh, rng, &mut ops, 1); }
                         }
                     }
-                    5 => if sh.dense > 0 { let (r, c) = (rng.below(h as u64) as usize, fd + rng.below(sh.dense as u64) as usize); let v = rng.chance(1, 2); sh.bits[r][c] = v; ops.push(format!("s:{r}:{c}:{}", v as u8)); }
+                    5 => if sh.dense > 0 { let (r, c) = (rng.below(sh.h as u64) as usize, fd + rng.below(sh.dense as u64) as usize); let v = rng.chance(1, 2); sh.bits[r][c] = v; ops.push(format!("s:{r}:{c}:{}", v as u8)); }
                     _ => {}
                 }
                 queries(&sh, rng, &mut ops, 2);
@@ -153,7 +177,7 @@ pub fn matrices(rec: &mut Recorder, rng: &mut Rng, thorough: bool) {
         for _ in 0..steps {
             let fd = sh.first_dense();
             match rng.below(6) {
-                0 => { let (i, j) = (rng.below(sh.h as u64) as usize, rng.below(sh.h as u64) as usize); sh.bits.swap(i, j); sh.tainted.swap(i, j); ops.push(format!("sr:{i}:{j}")); }
+                0 => if !no_row_swaps { let (i, j) = (rng.below(sh.h as u64) as usize, rng.below(sh.h as u64) as usize); sh.bits.swap(i, j); sh.tainted.swap(i, j); ops.push(format!("sr:{i}:{j}")); }
                 1 | 2 => if sh.h >= 2 {
                     let dest = rng.below(sh.h as u64) as usize;
                     let mut src = rng.below(sh.h as u64) as usize;
@@ -168,6 +192,7 @@ pub fn matrices(rec: &mut Recorder, rng: &mut Rng, thorough: bool) {
                 3 => if fd >= 2 && (0..sh.h).all(|r| sh.row_clean(r)) {
                     let (i, j) = (rng.below(fd as u64) as usize, rng.below(fd as u64) as usize);
                     for r in 0..sh.h { sh.bits[r].swap(i, j); }
+                    sh.col_valid.swap(i, j);
                     ops.push(format!("sc:{i}:{j}:0"));
                 }
                 4 => if rng.chance(1, 3) {
@@ -184,6 +209,7 @@ pub fn matrices(rec: &mut Recorder, rng: &mut Rng, thorough: bool) {
                 _ => {}
             }
             queries(&sh, rng, &mut ops, 3);
+        }
         }
         // final sweep: every defined cell of a few rows, and the whole last row through the iterator
         for _ in 0..3 { let r = rng.below(sh.h as u64) as usize; for c in 0..sh.w { if sh.defined(r, c) { ops.push(format!("g:{r}:{c}")); } } }
